@@ -587,11 +587,11 @@ func sliceText(fn *FuncInfo, obj types.Object, depth int) string {
 		}
 		for _, d := range varDefs(fn, o) {
 			if d.rhs != nil {
-				sb.WriteString(exprString(d.rhs) + ";")
+				sb.WriteString(fullString(d.rhs) + ";")
 				mention(d.rhs)
 			} else if as, ok := d.node.(*ast.AssignStmt); ok {
 				for _, r := range as.Rhs {
-					sb.WriteString(exprString(r) + ";")
+					sb.WriteString(fullString(r) + ";")
 					mention(r)
 				}
 			}
@@ -624,7 +624,7 @@ func sliceText(fn *FuncInfo, obj types.Object, depth int) string {
 						x = ast.Unparen(u.X)
 					}
 					if id, ok := x.(*ast.Ident); ok && info.Uses[id] == o {
-						sb.WriteString(exprString(call) + ";")
+						sb.WriteString(fullString(call) + ";")
 						mention(call)
 					}
 				}
